@@ -35,7 +35,11 @@
 (* keeps going and a later successful piece overwrites the error - seeded  *)
 (* C12-i), "ErrOnlyIfShort" (the streaming loop looks at the error only    *)
 (* when the count is short; cfg.full = the failing call takes all its      *)
-(* bytes and still returns an error - seeded C12-l).                       *)
+(* bytes and still returns an error - seeded C12-l),                       *)
+(* "PollReturnsStaleErr" (a poll inside a later phase - the doc-value      *)
+(* location table - returns the hoisted, still-nil error variable instead  *)
+(* of ErrClosed: the phase's writes are dropped and the call reports       *)
+(* success - seeded C12-r; on the code: family `wide_tail`).               *)
 (***************************************************************************)
 EXTENDS Integers, Sequences, FiniteSets, TLC
 
@@ -106,7 +110,9 @@ PollPoint(i) == i = 1 \/ i % 2 = 1
 Produce ==
     /\ result = "running" /\ wi <= Len(cfg.ws)
     /\ IF PollPoint(wi) /\ closed
-       THEN /\ result' = "closed" /\ UNCHANGED <<wi, buf, err, under, closed, hit>>
+       THEN IF "PollReturnsStaleErr" \in Dev /\ wi > 1
+            THEN /\ wi' = wi + 2 /\ UNCHANGED <<result, buf, err, under, closed, hit>>   \* "return 0, err" with the hoisted, still-nil err: the phase's writes are dropped, the call goes on
+            ELSE /\ result' = "closed" /\ UNCHANGED <<wi, buf, err, under, closed, hit>>
        ELSE LET st == IF cfg.direct
                       THEN LET r == UnderH(under, cfg.ws[wi], hit) IN        \* a piece of the data section, unbuffered
                            [buf |-> 0, under |-> under + r[1], h |-> r[3],
